@@ -488,7 +488,40 @@ def part_constants(ctx):
         ctx.case({'defaults': d0, 'user': u}, kind='constants')
 
 
+def part_through_graders(ctx):
+    """dependent values are consistent with the draws of the SAME sample wherever they are used by a grader: an author's own sum limit that names
+    a dependent instructor variable (evaluated at every sample), and chains of DependentSamplers that start from a sibling input of a ListGrader"""
+    from mitxgraders import SumGrader, ListGrader, FormulaGrader, DependentSampler, RealInterval
+    rng = ctx.rng
+    for samples in (2, 5, 8):
+        for pos, honest in [({'lower': 1, 'summand': 2}, ['1', 'k']), ({'summand': 1}, ['k']), ({'lower': 1, 'upper': 2, 'summand': 3}, ['1', '2*n', 'k'])]:
+            g = SumGrader(answers={'lower': '1', 'upper': 'N', 'summand': 'k', 'summation_variable': 'k'}, input_positions=pos, variables=['n', 'N'],
+                          sample_from={'n': (2, 3, 4, 5, 6, 7), 'N': DependentSampler(depends=['n'], formula='2*n')}, instructor_vars=['N'], samples=samples)
+            for rep in range(ctx.scale(2, 6)):
+                k, v = run_impl(lambda: g(None, honest if len(honest) > 1 else honest[0]))
+                case = {'part': 'grader-sum', 'positions': pos, 'samples': samples, 'student': honest}
+                ctx.case(case, nontrivial_key=('gsum', repr(pos), samples, rep), kind='through-graders:sum')
+                if not (k == 'out' and v['ok'] is True):
+                    ctx.violation("the author's own sum, re-entered by the student, is not accepted: the author's limit N = 2*n was not evaluated on the sample the student's entries were", case, impl=v if k == 'err' else dict(v))
+                    break
+    for it in range(ctx.scale(10, 60)):
+        a = rng.randint(2, 6)
+        sub = FormulaGrader(variables=['y', 'z', 'w'], sample_from={'y': DependentSampler(depends=['sibling_1'], formula='sibling_1^2'), 'z': DependentSampler(depends=['y'], formula='y + 1'),
+                                                                   'w': DependentSampler(depends=['z', 'y'], formula='z*y')})
+        second = rng.choice(['z', 'w', 'z + w'])
+        lg = ListGrader(answers=[str(a), second], subgraders=sub, ordered=True)
+        val = {'z': a * a + 1, 'w': (a * a + 1) * a * a, 'z + w': a * a + 1 + (a * a + 1) * a * a}[second]
+        for stu, want in [(str(val), True), (str(val + 1), False), (second, True)]:
+            k, v = run_impl(lambda: lg(None, [str(a), stu]))
+            case = {'part': 'grader-sibling-chain', 'first': a, 'second_answer': second, 'student': stu}
+            ctx.case(case, nontrivial_key=('gsib', a, second, stu), kind='through-graders:sibling-chain')
+            if not (k == 'out' and (v['input_list'][1]['ok'] is True) == want):
+                ctx.violation('a chain of dependent variables starting from a sibling input is not resolved consistently (expected %s)' % ('accepted' if want else 'refused'), case, impl=v if k == 'err' else dict(v))
+                break
+
+
 def run(ctx):
+    part_through_graders(ctx)
     part_samples(ctx)
     part_varlist(ctx)
     part_grader(ctx)
